@@ -27,6 +27,8 @@ let rec parse_ops toks = match toks with
   | "set" :: i :: d :: r -> let b = data_of d in OSet (nat i, Some b, Some (nat_of_int (List.length b))) :: parse_ops r
   | "setz" :: i :: d :: r -> OSet (nat i, Some (data_of d @ [N0]), None) :: parse_ops r
   | "raw" :: i :: n :: r -> OSet (nat i, None, optlen n) :: parse_ops r
+  | "seta" :: i :: o :: n :: r -> OSetSelf (nat i, nat o, Some (nat n)) :: parse_ops r
+  | "setaz" :: i :: o :: r -> OSetSelf (nat i, nat o, None) :: parse_ops r
   | "copy" :: i :: j :: r -> OCopy (nat i, Some (nat j)) :: parse_ops r
   | "copyn" :: i :: r -> OCopy (nat i, None) :: parse_ops r
   | "cmp" :: i :: d :: r -> let b = data_of d in OCompare (nat i, Some b, Some (nat_of_int (List.length b))) :: parse_ops r
